@@ -90,6 +90,11 @@ def soup(rng, quick):
         if r < 0.05:
             pre = ' ' * rng.randint(1, 3)
             feats.add('leading-blank')
+            if rng.random() < 0.3:
+                # blanks followed by something Python calls whitespace but X12 does not call a blank: a tab, FS/GS/RS/US
+                # (possibly the element separator itself, so that the segment id is empty); only the blanks may be dropped
+                pre += rng.choice([ele_t, '\t', ele_t + ele_t, '\x1f' if '\x1f' not in terms else ele_t, '\x0b'])
+                feats.add('leading-blank-then-other-whitespace')
         elif r < 0.09:
             out.append(seg_t)          # empty segment
             out.append(eol)
@@ -134,6 +139,11 @@ def read_all(src_factory, want_log=False):
     return out, (r.seg_term, r.ele_term, r.subele_term)
 
 
+def _empty_yield(s):
+    """a blank-only piece yielded as a segment without id and without elements (a segment with an empty id but data is real)"""
+    return s[0] in ('', None) and not any(any(x != '' for x in c) for c in s[1])
+
+
 def compare_with_ref(ctx, text, stream, terms, case):
     ok = True
     rterms, pieces = ref_token.tokenize(text)
@@ -144,7 +154,7 @@ def compare_with_ref(ctx, text, stream, terms, case):
     pending_blank = 0       # leading-blank errors of skipped blank-only pieces surface with the next pop_errors()
     for p in pieces:
         if p.blank_only:
-            if i < len(stream) and (stream[i][0] in ('', None)) :
+            if i < len(stream) and _empty_yield(stream[i]):
                 i += 1      # yielded as an empty segment: allowed
             else:
                 pending_blank += 1
@@ -188,7 +198,7 @@ def roundtrip(ctx, text, stream, terms, case):
     seg_t, ele_t, sub_t = terms
     rterms, pieces = ref_token.tokenize(text)
     pieces = [p for p in pieces if not p.blank_only]
-    real = [s for s in stream if s[0] not in ('', None)]
+    real = [s for s in stream if not _empty_yield(s)]
     try:
         formatted = [s[3].format(seg_t, ele_t, sub_t) for s in real]
     except Exception as ex:
@@ -210,7 +220,7 @@ def roundtrip(ctx, text, stream, terms, case):
         ctx.viol('format:reread:%s' % exc_key(ex), 're-reading the formatted text raised', case, {'exc': repr(ex)})
         return
     n1 = [ref_token_normal(s) for s in real]
-    n2 = [ref_token_normal(s) for s in stream2 if s[0] not in ('', None)]
+    n2 = [ref_token_normal(s) for s in stream2 if not _empty_yield(s)]
     if n1 != n2:
         ctx.viol('format:reread-differs', 'reading the formatted text again yields different segments', case, {'first_diff': next((a, b) for a, b in zip(n1 + [None], n2 + [None]) if a != b)})
 
